@@ -76,6 +76,14 @@ class C25(PropBase):
         # blind draw almost never achieves: in the "cover" modes the entries are derived from the findings of a probing -j1 run.
         scn["nofail_mode"] = rng.choice(["given", "given", "cover-all", "cover-all", "cover-all-but-one"])
         scn["nofail_forms"] = [rng.choice(["id", "id", "id:file"]) for _ in range(12)]
+        if rng.chance(0.08):
+            # a run whose only finding comes from the whole-program phase and is neither unusedFunction nor a ctu finding:
+            # a complete program (main + helper used in its own unit only) -> staticFunction with one job and no build dir
+            n = rng.randint(10, 99)
+            scn.update({"tree": {"m.c": ["int helper%d(int q){return q*%d;}" % (n, n), "int main(void){return helper%d(2);}" % n]}, "units": ["m.c"], "langs": {"m.c": "c"},
+                        "opts": {"--enable": rng.choice(["--enable=all", "--enable=style,unusedFunction"])}, "suppr": [], "nofail": [], "nofail_mode": "given",
+                        "project": None, "die": None})
+            scn["subjects"] = [{"exec": "j1", "seed": 1}] + scn["subjects"][:1]
         return scn
 
     def _judge(self, scn, r, how, out, cached):
